@@ -893,7 +893,7 @@ fn oset_lists<T: Elem>(cx: &mut Ctx, universe: &[T], max_len: usize) {
           }
         }
         Err(p) => cx.rep.violation(
-          &format!("oset-collect-panic:{}@{}", hname, p.file_only()),
+          &format!("oset-collect-panic:{}", hname),
           &format!(
             "[{}] collecting {} from an iterator whose (honest) size_hint is {:?} panicked: {} at {}",
             T::KIND, ls, h, p.msg, p.loc()
@@ -1700,7 +1700,7 @@ fn main() {
         }
       }
       Err(p) => cx.rep.violation(
-        &format!("oset-collect-panic:loose-upper-max@{}", p.file_only()),
+        "oset-collect-panic:loose-upper-max",
         &format!("(0..usize::MAX).map_while(|i| (i < 3).then_some(i as u8)).collect::<OrderedSet<u8>>() panicked: {} at {}", p.msg, p.loc()),
         json!({"kind":"u8","iterator":"(0..usize::MAX).map_while(..3 items..)","size_hint":"(0, Some(usize::MAX))"}),
       ),
